@@ -291,6 +291,16 @@ def check(model: Model, run: Run) -> None:
     )
     _r13_process_buffers(model, run)
 
+    # ------------------------------------------------------------------ R14 to each process the record of its own encoder
+    run.rule(
+        'C13.R14',
+        'every record handed to Processes.write for a process is built by the encoder of THAT process, in the same turn of the '
+        'loop over the subscribed processes: a record rendered once and reused is in the wrong encoding for every process that '
+        'does not share the encoder of the first (a json and a text process under API v4)',
+        floor=10,
+    )
+    _r14_own_encoder(model, run)
+
     # ------------------------------------------------------------------ R6 every event kind has an emitter
     run.rule('C13.R6', 'every message kind a peer can trigger has an emitter: each registered message type has a @register_process entry and each encoder class defines every method Processes calls on it', floor=20)
     _r6_emitters(model, run, folder)
@@ -827,3 +837,33 @@ def _r13_process_buffers(model: Model, run: Run) -> None:
             if isinstance(n, ast.Assign) and any(isinstance(t, ast.Subscript) and dotted(t.value) == 'self.' + attr and norm(t.slice) == sp for t in n.targets) and not flat_guards(start.node, n):
                 dropped = n
         run.check(dropped is not None, PROCESSES, 'self.%s[<process>] does not outlive the process' % attr, ci.loc(), 'neither _terminate nor _start drops it: after a respawn the new process of that name is sent the unwritten tail of the record its predecessor was being sent (or the daemon completes a command with the first bytes the new process writes)')
+
+
+def _r14_own_encoder(model: Model, run: Run) -> None:
+    ci = model.cls(PROCESSES)
+    n = 0
+    for name, m in sorted(ci.methods.items()):
+        L = None
+        pm = None
+        for c in walk_no_nested(m.node):
+            if not (isinstance(c, ast.Call) and isinstance(c.func, ast.Attribute) and c.func.attr == 'write' and dotted(c.func.value) == 'self' and len(c.args) >= 2 and isinstance(c.args[0], ast.Name)):
+                continue
+            pm = pm or parent_map(m.node)
+            # only writes made while walking the subscribed processes
+            loop = pm.get(id(c))
+            while loop is not None and not (isinstance(loop, (ast.For, ast.AsyncFor)) and isinstance(loop.target, ast.Name) and loop.target.id == c.args[0].id):
+                loop = pm.get(id(loop))
+            if loop is None:
+                continue
+            L = L or Loc(model, m)
+            proc = c.args[0].id
+            data = L.expanded(c.args[1], depth=4)
+            uses = [x for x in ast.walk(data) if isinstance(x, ast.Subscript) and dotted(x.value) == 'self._encoder']
+            if not uses and not any(isinstance(x, ast.Name) and len(L.defs.get(x.id, [])) > 1 for x in ast.walk(c.args[1])):
+                continue  # not an encoded event (raw answers, acknowledgements)
+            n += 1
+            run.analysed(m)
+            own = bool(uses) and all(isinstance(u.slice, ast.Name) and u.slice.id == proc for u in uses)
+            run.check(own, m.qualname, 'write(%s, %s): record built by self._encoder[%s]' % (proc, norm(c.args[1])[:40], proc), m.loc(c), 'the record is not (only) the output of the encoder of the process it is written to: %s' % ('it is kept in a local across the turns of the loop' if not uses else 'it uses the encoder of another process'))
+    if n < 10:
+        run.cannot('only %d encoded writes found in Processes' % n)
